@@ -46,6 +46,10 @@ CHECKS = {
    "explicit-state BFS over driver choice sequences for every small task system, each history replayed on the real yash_executor::Executor with instrumented futures in lock-step with a FIFO reference model",
    "Task systems: 2 tasks with scripts of <= 2 actions over 11 actions (self-wake+yield, duplicate self-wake, wait on channel 0 / 1 / either, signal a channel by consuming wake / wake_by_ref, clone-and-drop the waker, spawn a child through the Spawner), 3 tasks over a 6-action alphabet (thorough: scripts <= 2; plus 2 tasks with scripts <= 3). For each system a BFS over driver choices {step, run_until_stalled, signal channel 0/1 from outside, spawn another task} to depth 5 (quick) / 7 (thorough), states merged on the reference model's state. Every history runs on a fresh real Executor; after every driver operation the poll log of the instrumented futures must equal the model's (so FIFO order, no lost wake-up, no starvation by self-wakers), wake_count must equal the model queue length (a task queued at most once), step/run_until_stalled return values must agree, no future is polled after Ready or re-entrantly, each Receiver yields its value exactly once as soon as its task finished, at stall every unfinished task is registered on a channel not signalled since, and every future is dropped exactly once at tear-down.",
    "Reference FIFO model trusted; wakers exercised through std::task::Waker (raw vtable) only."),
+ "C11": ("model_checking", "DESIGN.md §3 C11",
+   "(a) explicit-state BFS by history replay over the real TrapSet bound to the real simulated system against a reference merge model; (b) exhaustive signal injection at every simulated system call index (and pairs) of scripts with traps",
+   "(a) For each signal class {INT, QUIT, TERM, CHLD, TSTP, USR1, KILL, STOP} x initial disposition {default, ignored} and 4 signal pairs, every history up to depth 5 (quick) / 8 (thorough) over {set_action Default/Ignore/Command with and without override, peek_state, enable/disable each internal-disposition group, enter_subshell with each option pair} is replayed on a fresh TrapSet + Concurrent<VirtualSystem>; after every operation the disposition actually installed in the simulated process and its signal mask are read back and must equal max(internal, user action) with caught <=> blocked, return values (InitiallyIgnored, SIGKILL/SIGSTOP refusal) must agree, and the trap set's recorded action must match. (b) 8 scripts (straight-line, loops, functions, command substitution, subshell, pipeline, case, multi-command trap action, EXIT trap): the trapped signal is raised on the shell at every system-call index after the trap is installed, and at pairs of indices; the markers outside the trap with their $? and the exit status must equal the undisturbed run, and the trap must run exactly once per delivery (1..n when n deliveries may coalesce; 0..1 once no command boundary is left).",
+   "Reference merge model trusted; injection points are the simulator's syscall boundaries (complete because caught signals are blocked outside select); injections before the trap is installed are excluded (default action + a simulator limitation covered under C19)."),
 }
 
 NOT_YET = {
